@@ -44,4 +44,25 @@ PROPS = {
             {"name": "sweep", "run": "TestSweep", "kind": "plain", "shards": {Q: 2, T: 16}, "args": {Q: ["-rapid.checks=3"], T: ["-rapid.checks=40"]}},
         ],
     },
+    "C18": {
+        "pkg": "c18",
+        "rule": ("the complete grid of 127 registered functions x 13 command shapes (read, read+selector, read+elements, read+both, reply, "
+                 "reply partial, notify/write full, partial, partial+selector, delete+selector, delete+elements, delete+selector+elements, "
+                 "delete+partial selectors) is enumerated; per cell rapid draws selector / elements / payload values reflectively "
+                 "(types located by the XSD JSON naming convention); each command is built with the public API, encoded, decoded and "
+                 "checked for function, payload type, filter kinds and deep-equal selectors/elements. Values: every pointer-to-struct "
+                 "field type of CmdType and FilterType round-trips through JSON. Wire: RequestRemoteData / UpdateData as seen on a "
+                 "peer's connection. Non-trivial: grid cell (counted once per cell) that carries data, a selector or elements; value with >=3 "
+                 "non-nil fields; wire case with a filter. Distinct by (function, shape) resp. JSON text."),
+        "assumptions": ["nil and empty lists are identified; a relative-only time period is compared by remaining duration within 1.2 s",
+                        "electricalConnectionCharacteristicData shares its elements field with the list function; asserted for the list function only",
+                        "native fuzzing (thorough) cannot be seed-pinned; its saved input is the reproducible unit"],
+        "runs": [
+            {"name": "grid", "run": "TestCmdGrid", "kind": "plain", "shards": {Q: 4, T: 16}, "args": {Q: ["-rapid.checks=5"], T: ["-rapid.checks=300"]}},
+            {"name": "factory", "run": "TestFactoryTables", "kind": "plain"},
+            {"name": "values", "run": "TestValueRoundTrip", "kind": "rapid", "checks": {Q: 12000, T: 800000}, "shards": {Q: 4, T: 16}},
+            {"name": "wire", "run": "TestWire", "kind": "rapid", "checks": {Q: 4000, T: 200000}, "shards": {Q: 4, T: 16}},
+            {"name": "fuzz", "run": "FuzzCmdJSON", "kind": "fuzz", "tiers": [T], "fuzztime": "60s", "timeout": 600},
+        ],
+    },
 }
